@@ -297,6 +297,11 @@ func (ph *ptraceHandle) handleTrap(pid int) error {
 			return ctx.skipSyscall()
 
 		case TraceKill:
+			// a tracee killed while the handler was looking at it (e.g. the run was cancelled) reads as
+			// empty memory, the verdict then is not about the program: leave it to the next wait4
+			if _, err := getTrapContext(pid); err == unix.ESRCH {
+				return err
+			}
 			return runner.StatusDisallowedSyscall
 		}
 	}
